@@ -63,7 +63,18 @@ ConsumedOf(i, t, j) ==
         ELSE {<<j, u>> : u \in {v \in CallPositions(j) : \E p \in ps : Match(v, KeyFor(fi, p, t))}}
 Elements(i)   == {<<i, t>> : t \in {u \in CallPositions(i) : Selected(i, u)}}
 AllElements   == UNION {Elements(i) : i \in cfg.F}
-Complete(i)   == Elements(i) \subseteq (done \cup stored)
+(* The pipeline cache in map (_get_or_set_cache, C09): with a cache, an invocation whose keyword arguments equal those  *)
+(* of an invocation of the same function that has completed (in this run, or in an earlier run with the same cache:     *)
+(* cfg.memo) may be answered from the cache: the user function is not entered, the element is complete.                *)
+(* cfg.cache / cfg.memo are optional fields of the run configuration.                                                   *)
+Cached   == "cache" \in DOMAIN cfg /\ cfg.cache
+Memo     == IF "memo" \in DOMAIN cfg THEN cfg.memo ELSE {}
+KwOfElem(e) == ElemKwargs(d, den, e[1], e[2])
+Hits     == IF ~Cached THEN {}
+            ELSE {e \in AllElements \ called :
+                     (\E e2 \in done : e2[1] = e[1] /\ KwOfElem(e2) = KwOfElem(e)) \/ <<e[1], KwOfElem(e)>> \in Memo}
+Avail    == done \cup stored \cup Hits
+Complete(i)   == Elements(i) \subseteq Avail
 (* the functions of F that i consumes an output of (unless that parameter is bound) *)
 DepsIn(i)     == StaticDeps(d, i) \cap cfg.F
 
@@ -83,7 +94,7 @@ Call(i, t, kwargs) ==
     /\ i \in cfg.F /\ <<i, t>> \in Elements(i)
     /\ <<i, t>> \notin called                            \* at most once per element and run
     /\ <<i, t>> \notin stored                            \* stored work is not redone
-    /\ \A j \in DepsIn(i) : ConsumedOf(i, t, j) \subseteq (done \cup stored)   \* never before all values it consumes are complete
+    /\ \A j \in DepsIn(i) : ConsumedOf(i, t, j) \subseteq Avail   \* never before all values it consumes are complete
     /\ \A e \in failed : GenOf(d, e[1]) >= GenOf(d, i)   \* no function of a later generation after a failure
     /\ kwargs = ElemKwargs(d, den, i, t)                 \* sliced exactly as the MapSpec says
     /\ called' = called \cup {<<i, t>>}
@@ -110,7 +121,7 @@ Return(results, loaded) ==
     /\ cfg.fixed = <<>> =>
           \A o \in UNION {OutputsOf(d, i) : i \in cfg.F} : PHas(results, o) /\ PGet(results, o) = den[o]
     /\ \A k \in DOMAIN loaded : loaded[k][2] = den[loaded[k][1]]      \* what load_outputs reads back afterwards
-    /\ stored' = stored \cup done
+    /\ stored' = stored \cup done \cup Hits
     /\ Finish
 
 (* learners (create_learners): the same elements are executed one by one by SequenceLearners, in any order that respects  *)
